@@ -912,3 +912,40 @@ Theorem line_convert_events_offsets_aligned : forall dbg be sx h c,
          (fst (fst (ConvertLine.events dbg be sx h c))).
 Proof. exact ConvertLineInv.events_offsets_aligned. Qed.
 Check line_convert_events_offsets_aligned.
+
+(* script_ok reduced to a first-order predicate on the event list (Proofs/ConvertLineScript.v evs_ok: offsets
+   non-decreasing within a sequence, multiples of minimum_instruction_length, below 2^64; line below 2^64; op_index 0)
+   for maximum_operations_per_instruction = 1. Of these, line / op_index (line_convert_events_lines_bounded,
+   _op_index_zero) and the alignment (line_convert_events_offsets_aligned) are proved invariants of read_row.
+   MISSING for line_convert_emits_meaning_closed: "offsets non-decreasing within a sequence and <= the address mask"
+   — it holds only outside the F10 class (after rows, a DW_LNE_set_address -1 followed by end_sequence makes the
+   converter restart at offset 0 WITHOUT an EndSequence event: the writer then sees a decreasing offset), so it needs
+   the instruction-scan lock-step of ConvertLineSim (not threaded in the 30 minutes). *)
+Require GV.Proofs.ConvertLineScript.
+Theorem line_convert_script_ok_of_events : forall e l,
+  LineWr.le_max_ops l = 1 -> 1 <= LineWr.le_min_len l -> LineWr.le_min_len l <> 0 ->
+  forall evs prev b opi,
+  opi = 0 -> LineWr.w_op_index prev = 0 -> LineWr.w_line prev < two64 ->
+  LineWr.w_address_offset prev mod LineWr.le_min_len l = 0 ->
+  ConvertLineScript.evs_ok (LineWr.le_min_len l) (LineWr.w_address_offset prev) evs ->
+  LineWrSeqProofs.script_ok e l prev b (ConvertLineReplay.script_of opi evs).
+Proof. exact ConvertLineScript.evs_script_ok. Qed.
+
+Theorem line_convert_emits_meaning_evs : forall dbg be sx h c evs cf,
+  let p := ConvertLine.cl_prog c in
+  LineWr.p_insns p = [] -> LineWr.p_prev p = LineWr.wrow_initial (LineWr.p_enc p) (LineWr.p_lenc p) ->
+  LineWr.p_row p = LineWr.wrow_initial (LineWr.p_enc p) (LineWr.p_lenc p) -> LineWr.p_in_seq p = false ->
+  LineWrProofs.enc_ok (LineWr.p_lenc p) -> LineWr.le_max_ops (LineWr.p_lenc p) = 1 ->
+  (LineWr.e_version (LineWr.p_enc p) <= 5)%N ->
+  ConvertLine.events dbg be sx h c = (evs, LineRd.SEnd, cf) ->
+  ConvertLineScript.evs_ok (LineWr.le_min_len (LineWr.p_lenc p)) 0 evs ->
+  exists q',
+    ConvertLine.convert dbg be sx h (fun a => Some (LineWr.AConst a)) c =
+      (if LineWr.p_in_seq q' then Err CMissingLineEndSequence else Ok (ConvertLineReplay.reprog q' cf)) /\
+    Forall LineWrProofs.special_ok (LineWr.p_insns q') /\
+    LineAdvSpec.rows_of (LineWr.params_of (LineWr.p_lenc p))
+      (map (LineWr.denote (LineWr.e_version (LineWr.p_enc p))) (LineWr.p_insns q')) =
+      fst (LineWrSeqProofs.meaning (LineWr.e_version (LineWr.p_enc p)) (LineWr.params_of (LineWr.p_lenc p))
+             (LineAdvSpec.init_regs (LineWr.params_of (LineWr.p_lenc p)), 0%N) (ConvertLineReplay.script_of 0 evs)).
+Proof. exact ConvertLineScript.convert_emits_meaning_evs. Qed.
+Check line_convert_script_ok_of_events. Check line_convert_emits_meaning_evs.
